@@ -290,6 +290,9 @@ fn directories(ctx: &mut Ctx, i: u64) {
     ctx.case(entries_fp(&list) ^ u64::from(codec) ^ 0xc12, list.len() >= 2);
     // util::write_directories twins: same resolved mapping; None: identical bytes
     if i % 3 == 0 {
+        // tiny initial leaf sizes without a codec: the pointer root itself overflows and the leaf size is doubled several times
+        let codec = if matches!((i / 3) % 5, 1 | 2) { R::C_NONE } else { codec };
+        let comp = gen::comp(codec);
         let tiles_only: Vec<R::REntry> = list.iter().filter(|e| e.run_length > 0).copied().collect();
         let le = gen::to_lib_entries(&tiles_only);
         let res = guard(|| -> Result<(), String> {
@@ -333,7 +336,12 @@ fn directories(ctx: &mut Ctx, i: u64) {
         match res {
             Err(p) => ctx.panic("util::write_directories_async", &p, mat_small(&tiles_only, codec)),
             Ok(Err(e)) => ctx.violation("util::write_directories_async", "directories-differ", "async directory writer differs from the sync one", &e, mat_small(&tiles_only, codec)),
-            Ok(Ok(())) => ctx.count("write_directories_equal"),
+            Ok(Ok(())) => {
+                ctx.count("write_directories_equal");
+                if matches!((i / 3) % 5, 1 | 2) && tiles_only.len() > 2500 {
+                    ctx.count("write_directories_twins_with_leaf_size_doubling");
+                }
+            }
         }
     }
 }
